@@ -470,23 +470,31 @@ def run(chk) -> None:
 
     # ---- R25j: what the walk prunes, and which path it tests ----------------
     chk.rule("R25j", "the walk drops a sub-directory only through the ignore test (no other filter on os.walk's subdirs list), and every path handed to _check_ignore_specs inside the walk is built from the directory currently being walked and the entry being considered")
-    tnames = [x for x in ast.walk(walk_for.target) if isinstance(x, ast.Name)]
-    dirvar = tnames[0].id if tnames else None
-    subvar = tnames[1].id if len(tnames) > 1 else None
+    # decided on what a name derives from (never on its spelling): component k of the triple os.walk yields, whether it
+    # is unpacked in the ``for`` target or in the body, and read through any number of locals
+    def _walk_component(e, at, k) -> bool:
+        if not isinstance(e, ast.Name):
+            return False
+        os_ = origins(cfg, e, at)
+        return bool(os_) and all(o.kind == "for" and o.stmt is walk_for and tuple(o.path) == (k,) for o in os_)
+
+    def _stmt_at(n):
+        return n if isinstance(n, ast.stmt) else cfg.stmt_of(n)
+
     prune_calls = {id(c) for c, _, _ in prune_sites}
     n_mut = 0
     for n in walk_local(walk_for):
         tgt = None
-        if isinstance(n, ast.Call) and isinstance(n.func, ast.Attribute) and isinstance(n.func.value, ast.Name) and n.func.value.id == subvar and n.func.attr in ("remove", "pop", "clear", "__delitem__"):
+        if isinstance(n, ast.Call) and isinstance(n.func, ast.Attribute) and n.func.attr in ("remove", "pop", "clear", "__delitem__") and _walk_component(n.func.value, _stmt_at(n), 1):
             if id(n) in prune_calls:
                 continue
             tgt = n
         elif isinstance(n, (ast.Assign, ast.AugAssign, ast.Delete)):
             tg = n.targets if isinstance(n, (ast.Assign, ast.Delete)) else [n.target]
             for t in tg:
-                if isinstance(t, ast.Subscript) and isinstance(t.value, ast.Name) and t.value.id == subvar:
+                if isinstance(t, ast.Subscript) and _walk_component(t.value, n, 1):
                     tgt = n
-                if isinstance(t, ast.Name) and t.id == subvar and isinstance(n, ast.AugAssign):
+                if isinstance(t, ast.Name) and isinstance(n, ast.AugAssign) and _walk_component(ast.Name(id=t.id, ctx=ast.Load()), n, 1):
                     tgt = n
         if tgt is not None:
             n_mut += 1
@@ -510,11 +518,16 @@ def run(chk) -> None:
         st = cfg.stmt_of(c)
         lv = {x.id for x in ast.walk(loop.target) if isinstance(x, ast.Name)}
         names = set()
+        facts = {"dir": False, "entry": False}
 
         def _collect(e, at, depth=0):
             for x in ast.walk(e):
                 if isinstance(x, ast.Name) and isinstance(x.ctx, ast.Load):
                     os_ = origins(cfg, x, at)
+                    if _walk_component(x, at, 0):
+                        facts["dir"] = True
+                    if os_ and all(o.kind == "for" and o.stmt is loop for o in os_):
+                        facts["entry"] = True
                     if depth < 4 and os_ and all(o.kind == "expr" and isinstance(o.expr, ast.AST) for o in os_):
                         for o in os_:
                             _collect(o.expr, o.stmt if o.stmt is not None else at, depth + 1)
@@ -524,8 +537,8 @@ def run(chk) -> None:
         _collect(a0, st)
         tested += 1
         chk.require(
-            dirvar in names and bool(lv & names), "R25j", c,
-            f"the path tested against the ignore specs is built from {sorted(names) or 'nothing'}, not from the directory being walked (`{dirvar}`) and the entry considered ({sorted(lv)}): "
+            facts["dir"] and facts["entry"], "R25j", c,
+            f"the path tested against the ignore specs is built from {sorted(names) or 'nothing'}, not from the directory being walked and the entry considered ({sorted(lv)}): "
             "below the first level the test then speaks about a different path than the one walked (a same-named directory elsewhere is pruned or kept in its place)",
             detail=f"_iter_files_in_path: ignore test on the walked entry ({'/'.join(sorted(lv))})",
         )
@@ -682,6 +695,74 @@ VARIANTS = [
         '            absolute_path = os.path.abspath(os.path.join(dirname, subdir, "*"))\n',
         '            joined = os.path.join(dirname, subdir, "*")\n            absolute_path = os.path.abspath(joined)\n',
         "QUIET", None, "same path through a local",
+    ),
+    # behaviour-preserving refactors: must stay quiet (R25j sweep)
+    Variant(
+        'quiet-walk-variables-renamed', DISC,
+        '    for dirname, subdirs, filenames in os.walk(path, topdown=True):\n        # Before adding new ignore specs, remove any which are no longer relevant\n        # as indicated by us no longer being in a subdirectory of them.\n        # NOTE: Slice so we can modify as we go.\n        for inner_dirname, inner_file, inner_spec in inner_ignore_specs[:]:\n            if not (\n                dirname == inner_dirname\n                or os.path.abspath(dirname).startswith(\n                    os.path.abspath(inner_dirname) + os.sep\n                )\n            ):\n                inner_ignore_specs.remove((inner_dirname, inner_file, inner_spec))\n\n        # Then look for any ignore files in the path (if ignoring files), add them\n        # to the inner buffer if found.\n        if ignore_files:\n            for ignore_file in set(filenames) & ignore_filename_set:\n                ignore_spec = ignore_file_loaders[ignore_file](dirname, ignore_file)\n                if ignore_spec:\n                    inner_ignore_specs.append(ignore_spec)\n\n        # Then prune any subdirectories which are ignored (by modifying `subdirs`)\n        # https://docs.python.org/3/library/os.html#os.walk\n        for subdir in subdirs[:]:  # slice it so that we can modify it in the process.\n            # NOTE: The "*" in this next section is a bit of a hack, but pathspec\n            # doesn\'t like matching _directories_ directly, but if we instead match\n            # `directory/*` we get the same effect.\n            absolute_path = os.path.abspath(os.path.join(dirname, subdir, "*"))\n            if _check_ignore_specs(\n                absolute_path, outer_ignore_specs\n            ) or _check_ignore_specs(absolute_path, inner_ignore_specs):\n                subdirs.remove(subdir)\n                continue\n\n        # Then look for any relevant sql files in the path.\n        for filename in filenames:\n            relative_path = os.path.join(dirname, filename)\n            absolute_path = os.path.abspath(relative_path)\n\n            # Check file extension is relevant\n            if not _match_file_extension(filename, lower_file_exts):\n                continue\n            # Check not ignored by outer & inner ignore specs\n            if _check_ignore_specs(absolute_path, outer_ignore_specs):\n                continue\n            if _check_ignore_specs(absolute_path, inner_ignore_specs):\n                continue\n\n            # If we get here, it\'s one we want. Yield it.\n            yield os.path.normpath(relative_path)\n',
+        '    for walked_dir, child_dirs, entries in os.walk(path, topdown=True):\n        # Before adding new ignore specs, remove any which are no longer relevant\n        # as indicated by us no longer being in a subdirectory of them.\n        # NOTE: Slice so we can modify as we go.\n        for inner_dirname, inner_file, inner_spec in inner_ignore_specs[:]:\n            if not (\n                walked_dir == inner_dirname\n                or os.path.abspath(walked_dir).startswith(\n                    os.path.abspath(inner_dirname) + os.sep\n                )\n            ):\n                inner_ignore_specs.remove((inner_dirname, inner_file, inner_spec))\n\n        # Then look for any ignore files in the path (if ignoring files), add them\n        # to the inner buffer if found.\n        if ignore_files:\n            for ignore_file in set(entries) & ignore_filename_set:\n                ignore_spec = ignore_file_loaders[ignore_file](walked_dir, ignore_file)\n                if ignore_spec:\n                    inner_ignore_specs.append(ignore_spec)\n\n        # Then prune any subdirectories which are ignored (by modifying `child_dirs`)\n        # https://docs.python.org/3/library/os.html#os.walk\n        for subdir in child_dirs[:]:  # slice it so that we can modify it in the process.\n            # NOTE: The "*" in this next section is a bit of a hack, but pathspec\n            # doesn\'t like matching _directories_ directly, but if we instead match\n            # `directory/*` we get the same effect.\n            absolute_path = os.path.abspath(os.path.join(walked_dir, subdir, "*"))\n            if _check_ignore_specs(\n                absolute_path, outer_ignore_specs\n            ) or _check_ignore_specs(absolute_path, inner_ignore_specs):\n                child_dirs.remove(subdir)\n                continue\n\n        # Then look for any relevant sql files in the path.\n        for filename in entries:\n            relative_path = os.path.join(walked_dir, filename)\n            absolute_path = os.path.abspath(relative_path)\n\n            # Check file extension is relevant\n            if not _match_file_extension(filename, lower_file_exts):\n                continue\n            # Check not ignored by outer & inner ignore specs\n            if _check_ignore_specs(absolute_path, outer_ignore_specs):\n                continue\n            if _check_ignore_specs(absolute_path, inner_ignore_specs):\n                continue\n\n            # If we get here, it\'s one we want. Yield it.\n            yield os.path.normpath(relative_path)\n',
+        'QUIET', None, "R25j: os.walk's three variables renamed throughout",
+    ),
+    Variant(
+        'quiet-walk-triple-kept-whole-then-unpacked', DISC,
+        '    for dirname, subdirs, filenames in os.walk(path, topdown=True):\n',
+        '    for walked in os.walk(path, topdown=True):\n        dirname, subdirs, filenames = walked\n',
+        'QUIET', None, 'R25j: the triple of os.walk unpacked in the body',
+    ),
+    Variant(
+        'quiet-prune-loop-variable-through-a-local', DISC,
+        '        for subdir in subdirs[:]:  # slice it so that we can modify it in the process.\n',
+        '        for entry in list(subdirs):\n            subdir = entry\n',
+        'QUIET', None, 'R25j: a copy by list(), the loop variable through a local',
+    ),
+    Variant(
+        'quiet-prune-path-as-an-fstring', DISC,
+        '            absolute_path = os.path.abspath(os.path.join(dirname, subdir, "*"))\n',
+        '            pattern = f"{dirname}{os.sep}{subdir}{os.sep}*"\n            absolute_path = os.path.abspath(pattern)\n',
+        'QUIET', None, 'R25j: abspath normalises a doubled separator, so this is the joined path',
+    ),
+    Variant(
+        'quiet-file-test-by-keyword-and-merged', DISC,
+        '            if _check_ignore_specs(absolute_path, outer_ignore_specs):\n                continue\n            if _check_ignore_specs(absolute_path, inner_ignore_specs):\n                continue\n',
+        '            if _check_ignore_specs(\n                absolute_filepath=absolute_path, ignore_specs=outer_ignore_specs\n            ) or _check_ignore_specs(absolute_path, ignore_specs=inner_ignore_specs):\n                continue\n',
+        'QUIET', None, 'R25j: two early continues as one `or`, arguments by keyword',
+    ),
+    Variant(
+        'quiet-file-loop-by-index', DISC,
+        '        for filename in filenames:\n            relative_path = os.path.join(dirname, filename)\n',
+        '        for idx in range(len(filenames)):\n            filename = filenames[idx]\n            relative_path = os.path.join(dirname, filename)\n',
+        'QUIET', None, 'R25j: the file loop by index',
+    ),
+    Variant(
+        'quiet-subdirs-through-an-alias', DISC,
+        '                subdirs.remove(subdir)\n                continue\n',
+        '                recurse_into = subdirs\n                recurse_into.remove(subdir)\n                continue\n',
+        'QUIET', None, 'R25j: the pruned list through an alias (same list object)',
+    ),
+    Variant(
+        'quiet-file-path-through-a-nested-helper', DISC,
+        '            relative_path = os.path.join(dirname, filename)\n            absolute_path = os.path.abspath(relative_path)\n',
+        '            def _under(directory, name):\n                return os.path.join(directory, name)\n\n            relative_path = _under(dirname, filename)\n            absolute_path = os.path.abspath(relative_path)\n',
+        'QUIET', None, 'R25j: the join in a nested helper',
+    ),
+    # breaking twins of the spellings above
+    Variant(
+        'prune-test-on-the-walk-root-after-unpacking-in-the-body', DISC,
+        '    for dirname, subdirs, filenames in os.walk(path, topdown=True):\n        # Before adding new ignore specs, remove any which are no longer relevant\n        # as indicated by us no longer being in a subdirectory of them.\n        # NOTE: Slice so we can modify as we go.\n        for inner_dirname, inner_file, inner_spec in inner_ignore_specs[:]:\n            if not (\n                dirname == inner_dirname\n                or os.path.abspath(dirname).startswith(\n                    os.path.abspath(inner_dirname) + os.sep\n                )\n            ):\n                inner_ignore_specs.remove((inner_dirname, inner_file, inner_spec))\n\n        # Then look for any ignore files in the path (if ignoring files), add them\n        # to the inner buffer if found.\n        if ignore_files:\n            for ignore_file in set(filenames) & ignore_filename_set:\n                ignore_spec = ignore_file_loaders[ignore_file](dirname, ignore_file)\n                if ignore_spec:\n                    inner_ignore_specs.append(ignore_spec)\n\n        # Then prune any subdirectories which are ignored (by modifying `subdirs`)\n        # https://docs.python.org/3/library/os.html#os.walk\n        for subdir in subdirs[:]:  # slice it so that we can modify it in the process.\n            # NOTE: The "*" in this next section is a bit of a hack, but pathspec\n            # doesn\'t like matching _directories_ directly, but if we instead match\n            # `directory/*` we get the same effect.\n            absolute_path = os.path.abspath(os.path.join(dirname, subdir, "*"))\n            if _check_ignore_specs(\n                absolute_path, outer_ignore_specs\n            ) or _check_ignore_specs(absolute_path, inner_ignore_specs):\n                subdirs.remove(subdir)\n                continue\n\n        # Then look for any relevant sql files in the path.\n        for filename in filenames:\n            relative_path = os.path.join(dirname, filename)\n            absolute_path = os.path.abspath(relative_path)\n\n            # Check file extension is relevant\n            if not _match_file_extension(filename, lower_file_exts):\n                continue\n            # Check not ignored by outer & inner ignore specs\n            if _check_ignore_specs(absolute_path, outer_ignore_specs):\n                continue\n            if _check_ignore_specs(absolute_path, inner_ignore_specs):\n                continue\n\n            # If we get here, it\'s one we want. Yield it.\n            yield os.path.normpath(relative_path)\n',
+        '    for walked in os.walk(path, topdown=True):\n        dirname, subdirs, filenames = walked\n        # Before adding new ignore specs, remove any which are no longer relevant\n        # as indicated by us no longer being in a subdirectory of them.\n        # NOTE: Slice so we can modify as we go.\n        for inner_dirname, inner_file, inner_spec in inner_ignore_specs[:]:\n            if not (\n                dirname == inner_dirname\n                or os.path.abspath(dirname).startswith(\n                    os.path.abspath(inner_dirname) + os.sep\n                )\n            ):\n                inner_ignore_specs.remove((inner_dirname, inner_file, inner_spec))\n\n        # Then look for any ignore files in the path (if ignoring files), add them\n        # to the inner buffer if found.\n        if ignore_files:\n            for ignore_file in set(filenames) & ignore_filename_set:\n                ignore_spec = ignore_file_loaders[ignore_file](dirname, ignore_file)\n                if ignore_spec:\n                    inner_ignore_specs.append(ignore_spec)\n\n        # Then prune any subdirectories which are ignored (by modifying `subdirs`)\n        # https://docs.python.org/3/library/os.html#os.walk\n        for subdir in subdirs[:]:  # slice it so that we can modify it in the process.\n            # NOTE: The "*" in this next section is a bit of a hack, but pathspec\n            # doesn\'t like matching _directories_ directly, but if we instead match\n            # `directory/*` we get the same effect.\n            absolute_path = os.path.abspath(os.path.join(path, subdir, "*"))\n            if _check_ignore_specs(\n                absolute_path, outer_ignore_specs\n            ) or _check_ignore_specs(absolute_path, inner_ignore_specs):\n                subdirs.remove(subdir)\n                continue\n\n        # Then look for any relevant sql files in the path.\n        for filename in filenames:\n            relative_path = os.path.join(dirname, filename)\n            absolute_path = os.path.abspath(relative_path)\n\n            # Check file extension is relevant\n            if not _match_file_extension(filename, lower_file_exts):\n                continue\n            # Check not ignored by outer & inner ignore specs\n            if _check_ignore_specs(absolute_path, outer_ignore_specs):\n                continue\n            if _check_ignore_specs(absolute_path, inner_ignore_specs):\n                continue\n\n            # If we get here, it\'s one we want. Yield it.\n            yield os.path.normpath(relative_path)\n',
+        'R25j', '_iter_files_in_path', 'twin of seeded C25-7 with the triple unpacked in the body',
+    ),
+    Variant(
+        'hidden-directories-dropped-through-an-alias', DISC,
+        '        # Then look for any relevant sql files in the path.\n',
+        '        recurse_into = subdirs\n        recurse_into[:] = [d for d in recurse_into if not d.startswith(".")]\n        # Then look for any relevant sql files in the path.\n',
+        'R25j', '_iter_files_in_path', 'twin of seeded C25-8 through an alias of the list',
+    ),
+    Variant(
+        'hidden-directories-dropped-after-unpacking-in-the-body', DISC,
+        '    for dirname, subdirs, filenames in os.walk(path, topdown=True):\n        # Before adding new ignore specs, remove any which are no longer relevant\n        # as indicated by us no longer being in a subdirectory of them.\n        # NOTE: Slice so we can modify as we go.\n        for inner_dirname, inner_file, inner_spec in inner_ignore_specs[:]:\n            if not (\n                dirname == inner_dirname\n                or os.path.abspath(dirname).startswith(\n                    os.path.abspath(inner_dirname) + os.sep\n                )\n            ):\n                inner_ignore_specs.remove((inner_dirname, inner_file, inner_spec))\n\n        # Then look for any ignore files in the path (if ignoring files), add them\n        # to the inner buffer if found.\n        if ignore_files:\n            for ignore_file in set(filenames) & ignore_filename_set:\n                ignore_spec = ignore_file_loaders[ignore_file](dirname, ignore_file)\n                if ignore_spec:\n                    inner_ignore_specs.append(ignore_spec)\n\n        # Then prune any subdirectories which are ignored (by modifying `subdirs`)\n        # https://docs.python.org/3/library/os.html#os.walk\n        for subdir in subdirs[:]:  # slice it so that we can modify it in the process.\n            # NOTE: The "*" in this next section is a bit of a hack, but pathspec\n            # doesn\'t like matching _directories_ directly, but if we instead match\n            # `directory/*` we get the same effect.\n            absolute_path = os.path.abspath(os.path.join(dirname, subdir, "*"))\n            if _check_ignore_specs(\n                absolute_path, outer_ignore_specs\n            ) or _check_ignore_specs(absolute_path, inner_ignore_specs):\n                subdirs.remove(subdir)\n                continue\n\n        # Then look for any relevant sql files in the path.\n        for filename in filenames:\n            relative_path = os.path.join(dirname, filename)\n            absolute_path = os.path.abspath(relative_path)\n\n            # Check file extension is relevant\n            if not _match_file_extension(filename, lower_file_exts):\n                continue\n            # Check not ignored by outer & inner ignore specs\n            if _check_ignore_specs(absolute_path, outer_ignore_specs):\n                continue\n            if _check_ignore_specs(absolute_path, inner_ignore_specs):\n                continue\n\n            # If we get here, it\'s one we want. Yield it.\n            yield os.path.normpath(relative_path)\n',
+        '    for walked in os.walk(path, topdown=True):\n        dirname, subdirs, filenames = walked\n        # Before adding new ignore specs, remove any which are no longer relevant\n        # as indicated by us no longer being in a subdirectory of them.\n        # NOTE: Slice so we can modify as we go.\n        for inner_dirname, inner_file, inner_spec in inner_ignore_specs[:]:\n            if not (\n                dirname == inner_dirname\n                or os.path.abspath(dirname).startswith(\n                    os.path.abspath(inner_dirname) + os.sep\n                )\n            ):\n                inner_ignore_specs.remove((inner_dirname, inner_file, inner_spec))\n\n        # Then look for any ignore files in the path (if ignoring files), add them\n        # to the inner buffer if found.\n        if ignore_files:\n            for ignore_file in set(filenames) & ignore_filename_set:\n                ignore_spec = ignore_file_loaders[ignore_file](dirname, ignore_file)\n                if ignore_spec:\n                    inner_ignore_specs.append(ignore_spec)\n\n        # Then prune any subdirectories which are ignored (by modifying `subdirs`)\n        # https://docs.python.org/3/library/os.html#os.walk\n        for subdir in subdirs[:]:  # slice it so that we can modify it in the process.\n            # NOTE: The "*" in this next section is a bit of a hack, but pathspec\n            # doesn\'t like matching _directories_ directly, but if we instead match\n            # `directory/*` we get the same effect.\n            absolute_path = os.path.abspath(os.path.join(dirname, subdir, "*"))\n            if _check_ignore_specs(\n                absolute_path, outer_ignore_specs\n            ) or _check_ignore_specs(absolute_path, inner_ignore_specs):\n                subdirs.remove(subdir)\n                continue\n\n        subdirs[:] = [d for d in subdirs if not d.startswith(".")]\n        # Then look for any relevant sql files in the path.\n        for filename in filenames:\n            relative_path = os.path.join(dirname, filename)\n            absolute_path = os.path.abspath(relative_path)\n\n            # Check file extension is relevant\n            if not _match_file_extension(filename, lower_file_exts):\n                continue\n            # Check not ignored by outer & inner ignore specs\n            if _check_ignore_specs(absolute_path, outer_ignore_specs):\n                continue\n            if _check_ignore_specs(absolute_path, inner_ignore_specs):\n                continue\n\n            # If we get here, it\'s one we want. Yield it.\n            yield os.path.normpath(relative_path)\n',
+        'R25j', '_iter_files_in_path', 'twin of seeded C25-8 with the triple unpacked in the body',
     ),
     Variant(
         "lint-path-crosses-two-switches", "src/sqlfluff/core/linter/linter.py",
